@@ -65,6 +65,11 @@ fn is_dir(s: &Snap, p: &str) -> bool {
     p.is_empty() || matches!(s.get(p), Some(None))
 }
 
+/// exit 0 or 1, nothing may change (see Target::Refuse)
+fn refuse() -> Pred {
+    Pred::Judged(Expect { exit: -1, run_ok: None, err_text: None, writes: vec![], may_touch: vec![], either: None })
+}
+
 fn fail() -> Pred {
     Pred::Judged(Expect { exit: 1, run_ok: None, err_text: None, writes: vec![], may_touch: vec![], either: None })
 }
@@ -163,6 +168,10 @@ enum Target {
     Write(String),
     Declined(String),
     Fail(Vec<String>),
+    /// a path without any extension that does not exist, while `<path>.<ext>` does and every
+    /// scripted answer declines: whether the tool refuses the path (it does) or would take it for
+    /// `<path>.<ext>` and ask, that file stays as it is, and nothing else is demanded
+    Refuse,
     Unknown(String),
 }
 
@@ -193,6 +202,12 @@ fn target(snap: &Snap, cwd: &str, given: &Option<String>, default_name: &str, ex
         }
         Target::Dir(vec![format!("{path}/out.{ext}"), cli::resolve(cwd, &format!("out.{ext}"))])
     } else {
+        if explicit && ext_of(&path).is_none() && is_dir(snap, &parent_of(&path)) {
+            // not in the manual; the tool refuses such a path today, a tool that completed it to
+            // `<path>.<ext>` would not break the property - unless it overwrote that file unasked
+            let declines = !answers.is_empty() && answers.iter().all(|a| a.is_empty() || a.starts_with('n') || a.starts_with('N'));
+            return if is_file(snap, &format!("{path}.{ext}")) && declines { Target::Refuse } else { Target::Unknown(format!("target {path} has no extension")) };
+        }
         if explicit && ext_of(&path) != Some(ext) {
             return Target::Fail(vec![]);
         }
@@ -266,6 +281,7 @@ pub fn predict(snap: &Snap, meaning: &BTreeMap<String, Meaning>, inv: &Inv, answ
                             }
                             Target::Declined(p) => may.push(p),
                             Target::Fail(_) => exit = 1,
+                            Target::Refuse => return refuse(),
                             Target::Unknown(s) => return Pred::Unjudgeable(s),
                         }
                     }
@@ -293,6 +309,7 @@ pub fn predict(snap: &Snap, meaning: &BTreeMap<String, Meaning>, inv: &Inv, answ
                 Target::Dir(cands) => Pred::Judged(Expect { exit: 0, run_ok: None, err_text: None, may_touch: cands.clone(), writes: vec![], either: Some(Either { cands, meaning: Meaning::Json(m), yes: answers.iter().all(|a| a.starts_with('y')) }) }),
                 Target::Declined(p) => Pred::Judged(Expect { exit: 0, run_ok: None, err_text: None, writes: vec![], may_touch: vec![p], either: None }),
                 Target::Fail(_) => fail(),
+                Target::Refuse => refuse(),
                 Target::Unknown(s) => Pred::Unjudgeable(s),
             }
         }
@@ -320,6 +337,7 @@ pub fn predict(snap: &Snap, meaning: &BTreeMap<String, Meaning>, inv: &Inv, answ
                         exit = 1;
                         break;
                     }
+                    Target::Refuse => return if may.is_empty() { refuse() } else { Pred::Unjudgeable("extension-less target after other targets of conv json".into()) },
                     Target::Dir(_) => return Pred::Unjudgeable("directory target of conv json".into()),
                     Target::Unknown(s) => return Pred::Unjudgeable(s),
                 }
@@ -442,7 +460,11 @@ fn check_stdout_run(stdout: &str, words: &[String], res: &[String], cmp: &Option
 
 /// strict check of a fault-free (or benign-fault) invocation
 fn check_strict(e: &Expect, o: &InvOut, before: &Snap, after: &Snap, inv_i: usize) -> Option<Fail> {
-    if o.out.code != Some(e.exit) {
+    if e.exit < 0 {
+        if !matches!(o.out.code, Some(0) | Some(1)) {
+            return Some(Fail { clause: "exit-status", inv: inv_i, detail: format!("exit {:?} signal {:?}, expected exit 0 or 1", o.out.code, o.out.signal) });
+        }
+    } else if o.out.code != Some(e.exit) {
         return Some(Fail { clause: "exit-status", inv: inv_i, detail: format!("exit {:?} signal {:?}, expected exit {}; stdout {:?} stderr {:?}", o.out.code, o.out.signal, e.exit, tail(&o.out.stdout), tail(&o.out.stderr)) });
     }
     if let Some(t) = &e.err_text {
